@@ -11,6 +11,21 @@ def toNats (b : Bytes) : List Nat := b.map (·.toNat)
 def ofNats (l : List Nat) : Bytes := l.map (·.toUInt8)
 
 def checkCase (j : Json) : Except String Verdict := do
+  -- two cookie stores with different secrets in one process: opens under its own secret, never under the other
+  match (jarr j "stores").toOption with
+  | some rows =>
+    let mut v : Verdict := { nontrivial := true }
+    let mut i := 0
+    for r in rows do
+      let own := (r.getObjVal? "own").toOption.bind (·.getBool?.toOption) |>.getD false
+      let other := (r.getObjVal? "other").toOption.bind (·.getBool?.toOption) |>.getD true
+      v := v.cmp i "stores.own" true own ["C02"]
+      v := v.cmp i "stores.other" false other ["C02"]
+      if other then v := v.mon "C02" "opens_under_other_key" i "cookie store with another secret, same process"
+      if !own then v := v.mon "C02" "round_trip" i "cookie store"
+      i := i + 1
+    return v.br "stores"
+  | none => pure ()
   let genuine ← jhexArr j "genuine"
   let vars ← jarr j "variants"
   let mut v : Verdict := {}
